@@ -13,6 +13,8 @@ import random, json
 from vlib import *
 
 PROGRAM = """(set 'counter 0)
+(set 'threaded (thread-last counter (+ 0) (list 7 8)))
+(set 'threaded-first (thread-first counter (+ 0) (list 7 8)))
 (defun lit () '(3 1 2))
 (defun op-sort () (stable-sort < (lit)))
 (defun op-cdrsort () (stable-sort < (cdr (lit))))
@@ -40,12 +42,13 @@ PROGRAM = """(set 'counter 0)
 (defun op-applyreq () (apply with-req-rest (lit)))
 (defun op-funcallopt () (funcall with-opt (lit)))
 (defun op-mapsort () (car (map 'list (lambda (x) (stable-sort < x)) (nested))))
+(defun op-threadlast () (thread-last counter (+ 0) (list 7 8)))
 (defun op-foldsort () (foldl (lambda (acc x) (stable-sort < x)) () (nested)))
 """
 FORM = {"slicelist": "(op-slicelist)", "quotecmp": "(op-quotecmp)", "slicefull": "(op-slicefull)", "slicetail": "(op-slicetail)", "slicecdr": "(op-slicecdr)", "sort": "(op-sort)", "cdrsort": "(op-cdrsort)", "slicepush": "(op-slicepush)", "append0": "(op-append0)", "restsort": "(op-restsort)",
         "macroarg": "(op-macroarg)", "define": "(op-define)", "read": "(op-read)", "reload": "(reload)",
         "applyrest": "(op-applyrest)", "applycdr": "(op-applycdr)", "applyreq": "(op-applyreq)", "funcallopt": "(op-funcallopt)",
-        "mapsort": "(op-mapsort)", "foldsort": "(op-foldsort)", "hostwiden": "(host-widen)", "hostcall": "(host-call)"}
+        "mapsort": "(op-mapsort)", "foldsort": "(op-foldsort)", "hostwiden": "(host-widen)", "hostcall": "(host-call)", "threadlast": "(op-threadlast)"}
 CFG = """SPECIFICATION Spec
 CONSTANTS R = %d
  LEN = %d
